@@ -733,7 +733,10 @@ class Mutator:
              'stmt_replace_new', 'stmt_tail_delete',
              'list_insert', 'list_delete', 'list_swap', 'list_move_across', 'list_tail_delete',
              'prim_name', 'prim_const', 'prim_attr', 'prim_defname', 'prim_op', 'prim_cmpop', 'prim_boolop', 'prim_unop',
-             'opt_set', 'opt_unset', 'global_names']
+             'opt_set', 'opt_unset', 'global_names',
+             # scalar-field edits whose direct put is (often) refused: they force the retry-at-parent fallback
+             'imp_relative', 'imp_level', 'imp_module', 'kw_arg_none', 'kw_arg_name', 'starred_toggle', 'alias_asname',
+             'handler_name']
 
     def foreign_tree(self):
         FST = _fst().FST
@@ -1171,6 +1174,97 @@ class Mutator:
         else:
             s.node.names[self.r.randrange(len(s.node.names))] = self.r.choice(IDENTS)
         return 'global_names', f'{type(s.node).__name__}.names'
+
+    # -- edits that valid ASTs allow but the field-by-field replay refuses (ValueError / NodeError -> retry at the parent) ---
+    def m_imp_relative(self, a, ss):
+        """`from a import b` -> `from . import b`: module removed, level raised"""
+        c = [s for s in self._nodes(ss, ast.ImportFrom) if s.node.module and '.' not in s.node.module
+             and not any(al.name == '*' for al in s.node.names)]
+        if not c:
+            return None
+        s = self.r.choice(c)
+        s.node.module = None
+        s.node.level = (s.node.level or 0) + 1
+        return 'imp_relative', 'ImportFrom.module'
+
+    def m_imp_level(self, a, ss):
+        c = [s for s in self._nodes(ss, ast.ImportFrom) if s.node.module and '.' not in s.node.module]   # dotted: C13-F11
+        if not c:
+            return None
+        s = self.r.choice(c)
+        lv = s.node.level or 0
+        s.node.level = self.r.choice([x for x in (0, 1, 2) if x != lv])
+        return 'imp_level', 'ImportFrom.level'
+
+    def m_imp_module(self, a, ss):
+        c = [s for s in self._nodes(ss, ast.ImportFrom) if s.node.module]
+        if not c:
+            return None
+        s = self.r.choice(c)
+        s.node.module = self.r.choice([i for i in ('alpha', 'beta_gamma', 'k9') if i != s.node.module])     # not dotted: C13-F12
+        return 'imp_module', 'ImportFrom.module'
+
+    def _keywords(self, ss, want_none):
+        return [s for s in self._nodes(ss, ast.keyword) if (s.node.arg is None) == want_none
+                and isinstance(s.parent, (ast.Call, ast.ClassDef))]
+
+    def m_kw_arg_none(self, a, ss):
+        """`f(a=b)` -> `f(**b)`"""
+        c = self._keywords(ss, False)
+        if not c:
+            return None
+        s = self.r.choice(c)
+        s.node.arg = None
+        return 'kw_arg_none', f'{type(s.parent).__name__}.keywords'
+
+    def m_kw_arg_name(self, a, ss):
+        """`f(**b)` -> `f(k=b)`"""
+        c = self._keywords(ss, True)
+        if not c:
+            return None
+        s = self.r.choice(c)
+        used = {k.arg for k in s.parent.keywords}
+        names = [i for i in IDENTS if i not in used]
+        if not names:
+            return None
+        s.node.arg = self.r.choice(names)
+        return 'kw_arg_name', f'{type(s.parent).__name__}.keywords'
+
+    def m_starred_toggle(self, a, ss):
+        """Call.args element: `*x` -> `x`, `x` -> `*x`"""
+        c = [s for s in ss if isinstance(s.parent, ast.Call) and s.field == 'args' and s.zone.replace('d', '') == ''
+             and not is_foreign(s.parent, self.work) and not is_foreign(s.node, self.work)
+             and not isinstance(s.node, (ast.GeneratorExp,))]
+        if not c:
+            return None
+        s = self.r.choice(c)
+        if isinstance(s.node, ast.Starred):
+            s.set(s.node.value)
+        else:
+            s.set(ast.Starred(s.node, L()))
+        return 'starred_toggle', 'Call.args'
+
+    def m_alias_asname(self, a, ss):
+        c = [s for s in self._nodes(ss, ast.alias) if s.node.name != '*']
+        if not c:
+            return None
+        s = self.r.choice(c)
+        try:
+            seg = ast.get_source_segment(self.work.src, s.node) or ''
+        except Exception:
+            seg = ''
+        if not seg.startswith(s.node.name):
+            return None       # dotted name written with whitespace / a continuation inside: C13-F15
+        s.node.asname = None if s.node.asname else self.r.choice(IDENTS)
+        return 'alias_asname', f'{type(s.parent).__name__}.names'
+
+    def m_handler_name(self, a, ss):
+        c = [s for s in self._nodes(ss, ast.ExceptHandler) if s.node.type is not None]
+        if not c:
+            return None
+        s = self.r.choice(c)
+        s.node.name = None if s.node.name else self.r.choice(IDENTS)
+        return 'handler_name', 'ExceptHandler.name'
 
     # -- special single-shot kinds (each has its own narrow signature) -------------------------------------------------
     def m_prim_conflate(self, a, ss):
